@@ -97,6 +97,8 @@ class Assembler:
                 src = self.src(rel)
                 a, b = {'//@struct': src.find_struct, '//@enum': src.find_enum, '//@const': src.find_const}[kind](name)
                 txt = strip_attrs_and_docs(src.text[a:b])
+                if kind == '//@struct':
+                    txt = self._publicise(txt)
                 txt = self._kept_derives(src, a) + txt
                 self.items.append(dict(kind=kind[3:], file=rel, name=name, sha=src.sha(a, b)))
                 emit(txt)
@@ -117,6 +119,18 @@ class Assembler:
                 emit(line)
             i += 1
         return '\n'.join(out) + '\n'
+
+    @staticmethod
+    def _publicise(txt):
+        """Visibility is irrelevant to behaviour; Verus needs fields mentioned in contracts to be visible (part of D1)."""
+        txt = re.sub(r'^(\s*)(pub(\s*\([^)]*\))?\s+)?struct\b', r'\1pub struct', txt, count=1, flags=re.M)
+        out = []
+        for l in txt.split('\n'):
+            m = re.match(r'^(\s+)(pub(\s*\([^)]*\))?\s+)?((?:r#)?\w+\s*:.*)$', l)
+            if m and not l.strip().startswith('pub struct'):
+                l = m.group(1) + 'pub ' + m.group(4)
+            out.append(l)
+        return '\n'.join(out)
 
     @staticmethod
     def _kept_derives(src, a):
